@@ -5,6 +5,7 @@
 -/
 import SifVerif.Model.Image
 import SifVerif.Model.Extra
+import SifVerif.Model.Check
 import Driver.SHA2
 open Sif
 
@@ -223,6 +224,7 @@ partial def loop (inp : IO.FS.Stream) (out : IO.FS.Stream) (st : DState) : IO Un
       | some img =>
         for l in viewLines "" img do out.putStrLn l
         out.putStrLn s!"file len={img.st.buf.length} fnv={fnvHex img.st.buf}"
+        if kv.has "inv" then out.putStrLn (invLine img)
         if kv.has "rl" then
           match loadContainer { img.st with pos := 0 } with
           | .ok img' =>
